@@ -82,6 +82,7 @@ type run struct {
 	restarted   bool
 	faultFired  bool
 	parker      *simkit.Parker
+	dirty       bool // uncommitted, unreverted changes are in place (step "dirty")
 	pendings    []pending
 	snapDone    int
 	snapStarted int
@@ -164,6 +165,7 @@ func execute(c *simkit.Ctx, bubble bool) bool {
 		}
 	}
 	c.CurStep = len(c.Plan.Steps)
+	r.cleanDirty()
 	if bubble {
 		r.drain()
 		if !c.Failed(prop) && c.Harness == "" {
@@ -305,7 +307,37 @@ func (r *run) step(st *simkit.Step) {
 	c := r.c
 	adb := r.se.ADB
 	tsm := r.se.TSM
+	if r.dirty && st.Op != "rollback" {
+		r.cleanDirty()
+	}
 	switch st.Op {
+	case "dirty":
+		// changes of a block that is being executed when the head is rolled back: applied, neither committed nor
+		// reverted. Only a rollback may follow (RecreateTrie of the parent drops them); anything else aborts them first.
+		m := r.m.clone()
+		r.applyMutations(st, m, false)
+		r.dirty = true
+		c.Eventf("%d uncommitted changes left in place", c.CurStep)
+	case "stalesnapshot":
+		// a late snapshot request for a root that was pruned meanwhile: it is refused (the root cannot be loaded) and
+		// must leave no trace that later snapshots or checkpoints could trip over
+		if !r.bubble || len(r.pendings) > 0 || int(adb.GetNumCheckpoints()) < r.snapStarted {
+			return
+		}
+		var cand []int
+		for i := 1; i < len(r.blocks)-1; i++ {
+			if _, onDisk := r.disk.RawGet(r.blocks[i].root); r.blocks[i].dead && !onDisk && len(r.blocks[i].root) > 0 && r.allRoots[string(r.blocks[i].root)] == 1 {
+				cand = append(cand, i)
+			}
+		}
+		if len(cand) == 0 {
+			return
+		}
+		i := cand[int(st.Int(0, 0))%len(cand)]
+		r.snapStarted++
+		adb.SnapshotState(r.blocks[i].root)
+		r.pendings = append(r.pendings, pending{kind: "stale", root: r.blocks[i].root, opsAt: r.mutOps, blocks: i})
+		c.Eventf("%d snapshot of the pruned root %x (block #%d) requested", c.CurStep, r.blocks[i].root, i)
 	case "block", "abort":
 		m := r.m.clone()
 		ok := r.applyMutations(st, m, st.Op == "block" && c.Plan.Knob("monotone", 0) == 1)
@@ -363,7 +395,12 @@ func (r *run) step(st *simkit.Step) {
 	case "rollback":
 		h := len(r.blocks) - 1
 		if h < 1 || r.blocks[h].final {
+			r.cleanDirty()
 			return
+		}
+		if r.dirty {
+			r.dirty = false
+			c.Probe("rollback_with_uncommitted_changes")
 		}
 		cur, prev := r.blocks[h].root, r.blocks[h-1].root
 		before := c.Faults["get_error"] + c.Faults["remove_error"]
@@ -472,6 +509,17 @@ func (r *run) step(st *simkit.Step) {
 		}
 		time.Sleep(time.Second)
 		c.SimNanos += int64(time.Second)
+	}
+}
+
+// cleanDirty aborts uncommitted changes left by a "dirty" step that was not followed by a rollback.
+func (r *run) cleanDirty() {
+	if !r.dirty {
+		return
+	}
+	r.dirty = false
+	if err := r.se.ADB.RevertToSnapshot(0); err != nil {
+		r.c.Violate("C09", "live-root-unreadable", "RevertToSnapshot(0)", "aborting a block: the head root %x cannot be recreated: %v", r.head().root, err)
 	}
 }
 
@@ -696,6 +744,10 @@ func (r *run) verifyPendings() {
 		return
 	}
 	for _, p := range r.pendings {
+		if p.kind == "stale" {
+			r.c.Probe("stale_snapshot_request_ended")
+			continue
+		}
 		db := r.se.TSM.GetSnapshotThatContainsHash(p.root)
 		if db == nil {
 			r.c.Violate("C10", p.kind+"-missing", "GetSnapshotThatContainsHash", "%s of root %x (block #%d) finished but no snapshot DB contains the root", p.kind, p.root, p.blocks)
